@@ -15,7 +15,8 @@
 (***************************************************************************)
 EXTENDS Integers, Sequences, FiniteSets, TLC, Json, Randomization
 
-CONSTANTS MaxLen,     \* exhaustive: all sequences of kinds up to this length
+CONSTANTS NFuzz,      \* configuration value-class worlds replayed (0: all positions x all value kinds)
+          MaxLen,     \* exhaustive: all sequences of kinds up to this length
           NRandom,    \* plus this many random sequences ...
           RandomLen   \* ... of this length
 
@@ -24,7 +25,7 @@ MustKinds == {"iface", "generic", "grouped", "embed-std", "embed-local", "embed-
               "anon-params", "chan-func-params", "sort-like", "unicode", "line-directive", "rare-syntax",
               "tag-on", "shadowed-by-local", "struct-shadowed-by-local-iface-plus-iface",
               \* hand-written or third-party-generated source files carrying a generated-code header
-              "iface-in-generated-file", "iface-in-generated-file-blockcomment",
+              "iface-in-generated-file", "iface-in-generated-file-blockcomment", "iface-in-go123-syntax-file",
               \* //line directives in every position a generator (goyacc, ragel, protoc plugins) puts them: BEFORE the
               \* package clause (relative / absolute target, existing / missing target file), block form, mid-file
               "line-before-package-rel", "line-before-package-abs", "line-before-package-existing", "line-block-before-package",
@@ -89,12 +90,44 @@ GoModWorlds == {[kind |-> "gomod", decls |-> <<"iface">>, select |-> "all", spel
                   s \in GoModSpellings, l \in Layouts}
 PkgShapeWorlds == {[kind |-> "pkgshape", decls |-> <<>>, select |-> "all", spelling |-> "plain", layout |-> "sep", shape |-> s, ctx |-> x] :
                      s \in PkgShapes, x \in {"alone", "among"}}
+\* CONFIGURATION VALUE CLASSES: every position of the configuration tree (top level, package, package config, interface,
+\* interface config, configs entry, and inside the map-valued parameters) holding a value of every YAML kind.  Most
+\* combinations are invalid input; the statement's last sentence applies to all of them: never an unrecovered panic
+\* (the exit status is left open, a non-zero one needs a diagnostic).
+CfgPositions == {"root.all", "root.dir", "root.filename", "root.pkgname", "root.structname", "root.template", "root.formatter",
+                 "root.force-file-write", "root.template-data", "root.template-data.unroll-variadic", "root.exclude-subpkg-regex",
+                 "root.include-interface-regex", "root.exclude-interface-regex", "root.recursive", "root.build-tags", "root.log-level",
+                 "root._anchors", "root.replace-type", "root.replace-type.pkg", "root.replace-type.pkg.type",
+                 "root.replace-type.pkg.type.pkg-path", "root.template-schema", "root.require-template-schema-exists", "root.config",
+                 "root.packages", "pkg", "pkg.config", "pkg.config.all", "pkg.config.dir", "pkg.config.template-data",
+                 "pkg.config.recursive", "pkg.config.exclude-subpkg-regex", "pkg.config.replace-type", "pkg.interfaces",
+                 "iface", "iface.config", "iface.config.structname", "iface.config.template-data", "iface.configs",
+                 "entry", "entry.structname", "entry.force-file-write", "entry.template-data"}
+ValueKinds == {"null", "string", "empty-string", "int", "float", "bool", "empty-list", "list-of-strings", "list-of-null",
+               "empty-map", "map", "nested-map", "templated-string"}
+FuzzAll == {[kind |-> "cfgfuzz", decls |-> <<"iface">>, select |-> "all", spelling |-> "plain", layout |-> "sep", shape |-> "-", ctx |-> "-",
+             pos |-> p, val |-> v] : p \in CfgPositions, v \in ValueKinds}
+CfgFuzzWorlds == IF NFuzz = 0 THEN FuzzAll ELSE RandomSubset(NFuzz, FuzzAll)
+\* the configuration FILE as text: not YAML at all, YAML of the wrong shape, odd but legal encodings
+CfgTextShapes == {"tabs-indent", "duplicate-keys", "empty-file", "only-comment", "garbage", "list-at-top", "scalar-at-top", "bom",
+                  "crlf", "undefined-alias", "multi-document", "deep-nesting", "nul-byte", "huge-scalar", "recursive-alias"}
+CfgTextWorlds == {[kind |-> "cfgtext", decls |-> <<"iface">>, select |-> "all", spelling |-> "plain", layout |-> "sep", shape |-> s, ctx |-> "-"] :
+                    s \in CfgTextShapes}
+\* the command line
+CliShapes == {"config-missing", "config-is-dir", "unknown-flag", "no-config-anywhere", "log-level-bogus", "extra-positional-arg",
+              "config-flag-empty", "config-unreadable-yaml-dir-entry"}
+CliMustFail == {"config-missing", "config-is-dir", "unknown-flag", "no-config-anywhere"}
+CliWorlds == {[kind |-> "cli", decls |-> <<"iface">>, select |-> "all", spelling |-> "plain", layout |-> "sep", shape |-> s, ctx |-> "-"] : s \in CliShapes}
+\* SIZE: "every configured mock was generated and written" with hundreds of mocks, files and packages in one run
+ManyShapes == {"300-interfaces-one-file", "150-interfaces-150-files", "40-packages"}
+ManyWorlds == {[kind |-> "many", decls |-> <<>>, select |-> "all", spelling |-> "plain", layout |-> "sep", shape |-> s, ctx |-> "-"] : s \in ManyShapes}
+
 \* nested go.mod of each shape in the output directory; the module's own go.mod without a module directive
 NestedGoModWorlds == {[kind |-> "gomod-nested", decls |-> <<"iface">>, select |-> "all", spelling |-> "plain", layout |-> "sep", shape |-> s, ctx |-> "-"] :
                         s \in NoModuleShapes \cup WithModuleShapes}
 RootNoModuleWorlds == {[kind |-> "gomod-root-nomodule", decls |-> <<"iface">>, select |-> "all", spelling |-> "plain", layout |-> "sep", shape |-> s, ctx |-> "-"] :
                          s \in {"empty", "comment-only", "go-only"}}
-Worlds == NestedGoModWorlds \cup RootNoModuleWorlds \cup DeclWorlds \cup RandomDeclWorlds \cup GoModWorlds \cup PkgShapeWorlds \cup CfgShapeWorlds
+Worlds == CfgFuzzWorlds \cup CfgTextWorlds \cup CliWorlds \cup ManyWorlds \cup NestedGoModWorlds \cup RootNoModuleWorlds \cup DeclWorlds \cup RandomDeclWorlds \cup GoModWorlds \cup PkgShapeWorlds \cup CfgShapeWorlds
 
 \* CONTRACT: a valid world succeeds, and every must-declaration is mocked (1-based positions in decls)
 MustPositions(wd) == IF wd.select = "none" THEN {} ELSE {i \in 1..Len(wd.decls) : wd.decls[i] \in MustKinds}
@@ -102,8 +135,10 @@ MustPositions(wd) == IF wd.select = "none" THEN {} ELSE {i \in 1..Len(wd.decls) 
 \* never a crash; with one (wherever it stands in the file) the run succeeds
 PathUndeterminable(wd) == \/ wd.kind = "gomod-nested" /\ wd.shape \in NoModuleShapes
                           \/ wd.kind = "gomod-root-nomodule"
-Expectation(wd) == [exit |-> IF PathUndeterminable(wd) THEN "nonzero" ELSE "zero", panic |-> FALSE,
-                    must |-> IF PathUndeterminable(wd) THEN {} ELSE MustPositions(wd),
+ExitOpen(wd) == wd.kind \in {"cfgfuzz", "cfgtext"} \/ (wd.kind = "cli" /\ wd.shape \notin CliMustFail)
+Expectation(wd) == [exit |-> IF ExitOpen(wd) THEN "any"
+                             ELSE IF PathUndeterminable(wd) \/ wd.kind = "cli" THEN "nonzero" ELSE "zero", panic |-> FALSE,
+                    must |-> IF PathUndeterminable(wd) \/ ExitOpen(wd) \/ wd.kind = "cli" THEN {} ELSE MustPositions(wd),
                     \* a configured package that contributes no interface is not an error
                     anything_written |-> (wd.kind # "pkgshape" \/ wd.ctx = "among")]
 
